@@ -12,7 +12,7 @@
    decodeB_decodeA. *)
 From Coq Require Import NArith ZArith List Lia Bool.
 From Coq Require Import ZifyBool ZifyN ZifyNat.
-From Desert Require Import Bits Outcome IO IOProofs Types Codec CodecB.
+From Desert Require Import Bits Outcome IO IOProofs Types Calendar Codec CodecB.
 Import ListNotations.
 Open Scope N_scope.
 
@@ -459,16 +459,70 @@ Proof.
     apply sim_ok_store; auto.
 Qed.
 
+(* --- features/chrono.rs helpers --- *)
+Lemma dec_small_sim lo hi : dsim (dec_small b_ops lo hi) (dec_small a_ops lo hi).
+Proof. intros sb sa Hs. unfold dec_small. cbn [b_ops a_ops d_rd]. go2. Qed.
+
+Lemma dec_offset_sim : dsim (dec_offset b_ops) (dec_offset a_ops).
+Proof. intros sb sa Hs. unfold dec_offset. cbn [b_ops a_ops d_rd]. go2. Qed.
+
+Lemma dec_tz_sim : dsim (dec_tz b_ops) (dec_tz a_ops).
+Proof.
+  intros sb sa Hs. unfold dec_tz. cbn [d_rd b_ops a_ops].
+  eapply (sim_bind eq); [apply rd_u8_sim; exact Hs|].
+  intros t sb1 ? sa1 <- Hs1 Hf1 Hk1; cbv beta iota.
+  destruct (t =? 1); [|reflexivity].
+  fold b_ops a_ops.
+  eapply (sim_bind eq); [apply dec_string_sim; exact Hs1|].
+  intros v sb2 ? sa2 <- Hs2 Hf2 Hk2; cbv beta iota.
+  destruct v; try reflexivity.
+  destruct (tz_known bs); [apply sim_ok; auto | reflexivity].
+Qed.
+
+Lemma dec_ndate_sim : dsim (dec_ndate b_ops) (dec_ndate a_ops).
+Proof. intros sb sa Hs. unfold dec_ndate. cbn [b_ops a_ops d_rd]. cbv zeta. go2. Qed.
+
+Lemma dec_ntime_sim : dsim (dec_ntime b_ops) (dec_ntime a_ops).
+Proof. intros sb sa Hs. unfold dec_ntime. cbn [b_ops a_ops d_rd]. go2. Qed.
+
+Lemma dec_ndt_sim : dsim (dec_ndt b_ops) (dec_ndt a_ops).
+Proof.
+  intros sb sa Hs. unfold dec_ndt.
+  eapply (sim_bind eq); [apply dec_ndate_sim; exact Hs|].
+  intros d sb1 ? sa1 <- Hs1 Hf1 Hk1; cbv beta iota.
+  eapply (sim_bind eq); [apply dec_ntime_sim; exact Hs1|].
+  intros t sb2 ? sa2 <- Hs2 Hf2 Hk2; cbv beta iota.
+  apply sim_ok; auto.
+Qed.
+
 Lemma dec_prim_sim p : dsim (dec_prim b_ops p) (dec_prim a_ops p).
 Proof.
-  intros sb sa Hs. unfold dec_prim. cbn [d_rd b_ops a_ops].
-  destruct p; try reflexivity; try (go2; fail).
+  intros sb sa Hs. destruct p;
+    try (first [ apply dec_small_sim | apply dec_offset_sim | apply dec_tz_sim
+               | apply dec_ndate_sim | apply dec_ntime_sim | apply dec_ndt_sim ]; assumption);
+    unfold dec_prim; cbn [d_rd b_ops a_ops];
+    try reflexivity; try (go2; fail).
   - apply dec_string_sim; assumption.
   - apply dec_dedup_sim; assumption.
   - apply dec_bytes_sim; assumption.
   - eapply (sim_bind eq); [apply dec_bytes_sim; exact Hs|].
     intros v sb1 ? sa1 <- Hs1 Hf1 Hk1; cbv beta iota.
     destruct v; try reflexivity. apply sim_ok; auto.
+  - (* DateTime<FixedOffset> *)
+    fold b_ops a_ops.
+    eapply (sim_bind eq); [apply dec_ndt_sim; exact Hs|].
+    intros dt sb1 ? sa1 <- Hs1 Hf1 Hk1; cbv beta iota.
+    eapply (sim_bind eq); [apply dec_offset_sim; exact Hs1|].
+    intros off sb2 ? sa2 <- Hs2 Hf2 Hk2; cbv beta iota.
+    destruct off; try reflexivity.
+    destruct (valid_local_with_offset _ z); [apply sim_ok; auto | reflexivity].
+  - (* DateTime<Tz> *)
+    fold b_ops a_ops.
+    eapply (sim_bind eq); [apply dec_ndt_sim; exact Hs|].
+    intros dt sb1 ? sa1 <- Hs1 Hf1 Hk1; cbv beta iota.
+    eapply (sim_bind eq); [apply dec_tz_sim; exact Hs1|].
+    intros tz sb2 ? sa2 <- Hs2 Hf2 Hk2; cbv beta iota.
+    apply sim_ok; auto.
 Qed.
 
 (* --- sequences --- *)
